@@ -246,6 +246,7 @@ def _worker(arg):
         r['funcs'] = sorted(funcs)
         r['wall_s'] = time.time() - t0
         r['engine'] = dict(sym.STATS)
+        r['solver_s'] += sym.STATS.get('solver_s', 0.0)   # feasibility checks of the path explorer
         r['error'] = None
         return r
     except Exception as e:
